@@ -33,3 +33,19 @@ PROPS["C08"] = {
                    "and alias is proved to parse back.",
     "assumptions": [],
 }
+
+PROPS["C08"]["units"] = {"quick": ["spirv_enums", "kani_masks"], "thorough": ["spirv_enums", "kani_masks", "kani_enums"]}
+PROPS["C08"]["engines"] = ["verus", "kani"]
+
+PROPS["C11"] = {
+    "title": "Decoder consumes exactly what it returns and honours limits",
+    "units": {"quick": ["decoder"], "thorough": ["decoder"]},
+    "level": "proof",
+    "technique": "Verus contracts on every extracted Decoder method and the 56 generated typed requests (view bytes/offset/limit, invariant offset <= len), limit lemma by induction over request histories",
+    "design_ref": "DESIGN.md §4 C11",
+    "explanation": "All 13 hand-written Decoder methods and the 56 generated typed requests are extracted each run and proved "
+                   "against postconditions written from the statement (three-way word(), little-endian words, low-word-first "
+                   "bit64, NUL-terminated whole-word strings charged to the limit); `offset <= len` is required and ensured "
+                   "everywhere; the limit lemma is an induction over the contracts.",
+    "assumptions": [],
+}
